@@ -20,7 +20,6 @@ Inductive problem := SO (minimize : bool) | MO (m : minspec) (a : aggspec).
 
 Definition neg_if (m : bool) (q : Q) : Q := if m then (- q)%Q else q.
 
-Fixpoint qsum (l : list Q) : Q := match l with [] => 0%Q | x :: t => (x + qsum t)%Q end.
 
 (* sum(m and -fit or +fit for (fit, m) in zip(fits, minimize)) *)
 Fixpoint merge_list (fits : list Q) (ms : list bool) : Q :=
